@@ -30,7 +30,71 @@ def _with_scenario(pair):
     return case
 
 
+def run_reentrant(case):
+    """the function calls its own decorated self while being evaluated (depth <= 2), also with the same arguments; after every completed
+    top-level call the bound must hold and the value must be right"""
+    import os
+    import klepto.archives as KA
+    out = []
+    algo = case['algo']
+    classes = ['part:reent', 'module:' + case['module'], 'eff_algo:' + algo, 'reent_arch:' + case['arch']]
+    plan, box, state = case['plan'], {}, {'depth': 0, 'nested': 0, 'overflow': 0}
+
+    def body(x):
+        if state['depth'] < 2:
+            state['depth'] += 1
+            try:
+                for y in plan[x]:
+                    r = box['f'](y)
+                    state['nested'] += 1
+                    if r != ('r', y):
+                        out.append(Discrepancy('C05/reentrant/%s/wrong-nested-result' % algo, 'f(%d) inside f(%d) returned %r' % (y, x, r)))
+            finally:
+                state['depth'] -= 1
+        return ('r', x)
+    with H.Scratch() as sc:
+        kw = {}
+        if case['arch'] == 'dict':
+            kw['cache'] = KA.dict_archive('reent', cached=True)
+        elif case['arch'] == 'dir':
+            kw['cache'] = KA.dir_archive(os.path.join(sc.path, 'reent'), cached=True, serialized=True)
+        ms = case['maxsize']
+        kw.update(maxsize=ms, purge=case['purge'])
+        f = box['f'] = H.decorator_class(case['module'], algo)(**kw)(body)
+        seen = set()
+        for i, x in enumerate(case['calls']):
+            if x < 0:
+                f.clear(keepstats=(x == -2))
+                continue
+            before = len(f.__cache__())
+            try:
+                r = f(x)
+            except Exception as e:
+                out.append(Discrepancy('C05/reentrant/%s/call-raised/%s' % (algo, H.exc_sig(e)), 'call %d f(%d) plan %r: %r' % (i, x, plan, e)))
+                break
+            after = len(f.__cache__())
+            seen.add(x)
+            seen.update(plan[x])
+            if len(seen) > ms:
+                state['overflow'] += 1
+            if r != ('r', x):
+                out.append(Discrepancy('C05/reentrant/%s/wrong-result' % algo, 'f(%d) returned %r' % (x, r)))
+            elif after > max(ms, before):
+                out.append(Discrepancy('C05/reentrant/%s/bound-exceeded' % algo, 'call %d of %r (plan %r, maxsize %d): %d resident before, %d after' % (i, case['calls'], plan, ms, before, after)))
+            if out:
+                break
+    if state['nested']:
+        classes.append('reentrant_call')
+    nt = ('reent', case['module'], algo, case['arch'], ms, case['purge'], tuple(map(tuple, plan)), tuple(case['calls'])) if state['nested'] and state['overflow'] else None
+    return out[:1], nt, classes
+
+
 def strata(tier):
+    from props.c15 import reentrant_cases
+    return [('reentrant/' + a, reentrant_cases(a)) for a in ('lru', 'mru', 'lfu', 'rr')] + _strata_main(tier)
+
+
+def _strata_main(tier):
     return [(n, st.tuples(s, st.sampled_from([0, 0, 0, 1, 1, 2])).map(_with_scenario)) for n, s in _strata(tier)]
 
 
@@ -159,7 +223,7 @@ def extra_passes(run, tier, shard, nshards):
     exhaustive_sweep(run, tier, shard, nshards, lambda case, tr: check(case, tr))
 
 
-REQUIRED_CLASSES = ['overflow', 'call_while_overfull', 'overflow_purge_archived', 'ms_pos:True', 'maxsize:0', 'maxsize:None', 'raising_call', 'overflow_after_raising_call', 'op:sweep', 'op:clearkeep']
+REQUIRED_CLASSES = ['reentrant_call', 'overflow', 'call_while_overfull', 'overflow_purge_archived', 'ms_pos:True', 'maxsize:0', 'maxsize:None', 'raising_call', 'overflow_after_raising_call', 'op:sweep', 'op:clearkeep']
 
 TRIGGERS = {}
 
@@ -168,6 +232,8 @@ SHARDS = {'quick': 4, 'thorough': 16}
 
 
 def run_case(case):
+    if case.get('part') == 'reent':
+        return run_reentrant(case)
     tr = H.run_history(case)
     discrs = check(case, tr)
     nt, classes = classify(case, tr)
